@@ -209,9 +209,10 @@ fn main() {
             x
         };
         let ck = |x: &Exec<Vec<usize>>, _p: &[usize]| unsafe { check(&mut *runp, mode, w, n, bound, x, &*lc) };
+        let deadline = run.deadline();
         let stats = match u.bound {
-            None => sched::explore_states(vec![vec![]], 5_000_000, ex, ck),
-            Some(b) => sched::explore_bounded(b, vec![vec![]], ex, ck),
+            None => sched::explore_states(deadline, vec![vec![]], 5_000_000, ex, ck),
+            Some(b) => sched::explore_bounded(b, deadline, vec![vec![]], ex, ck),
         };
         run.count_n(&format!("{}:executions", u.mode), stats.executions);
         run.count_n("states", stats.states);
@@ -220,7 +221,7 @@ fn main() {
             "transitions": stats.transitions, "terminal_states": stats.terminal_states, "max_depth": stats.max_depth,
             "max_preemptions_in_a_schedule": stats.max_preemptions_seen, "completed": !stats.stopped_early}));
         if stats.stopped_early && run.num_violations() == 0 {
-            run.capped = Some(format!("state cap hit in {mode} W={w} N={n}"));
+            run.capped = Some(format!("{} in {mode} W={w} N={n}", if stats.out_of_time { "time budget reached" } else { "state cap hit" }));
         }
     }
     run.extra.insert("per_config".into(), json!(per_unit));
